@@ -312,6 +312,83 @@ def monitor_conc(c):
     return None
 
 
+# ----------------------------------------------------------------- leg pend (KeyUpdate while another reliable flight is pending)
+
+SITE_PEND = "internal/handshake/post_handshake.go startQueuedPostHandshake / retransmitPostHandshakeFlight (KeyUpdate " \
+            "while another reliable post-handshake flight of the same endpoint is unacknowledged)"
+PEND_OPAQUE = ("plaintext", "unparsable", "handshake", "unopenable")
+
+
+def monitor_pend(c):
+    """C20's own predicates on the ordered event log of one pend case: None or (monitor, description)"""
+    recs = c["recs"]
+    last = {"client": (0, None), "server": (0, None)}
+    written = {"client": set(c["written"][0]), "server": set(c["written"][1])}
+    other = {"client": "server", "server": "client"}
+    reads = {"client": collections.Counter(), "server": collections.Counter()}
+    owed = []   # (payload, reader, call id, writer): written right after UpdateKeys returned nil, not yet read
+    for k, e in enumerate(c["evs"]):
+        ev = e["ev"]
+        if ev in ("ukerr", "werr"):
+            return "call-error", "event %d: %s of %s failed: %s" % (k, "UpdateKeys" if ev == "ukerr" else "Write", e["side"], e["err"])
+        if ev == "emit":
+            r = recs[e["rec"]]
+            if r["kind"] in PEND_OPAQUE:
+                continue
+            if r["kind"] == "alert":
+                return "alert", "event %d: %s emitted an alert" % (k, r["from"])
+            le, lk = last[r["from"]]
+            if r["epoch"] < le:
+                return "send-epoch-decreased", (
+                    "event %d (t=%d ms): %s emitted a %s record (seq %d%s) under epoch %d after it had already sent a "
+                    "record under epoch %d (event %d): the sending epoch decreased"
+                    % (k, e["t_ms"], r["from"], r["kind"], r["seq"],
+                       ", message_seq %d" % r["msg"] if r["msg"] >= 0 else "", r["epoch"], le, lk))
+            if r["epoch"] > le:
+                last[r["from"]] = (r["epoch"], k)
+            if r["elow"] != r["epoch"] % 4:
+                return "epoch-bits", "event %d: record of epoch %d carries epoch bits %d" % (k, r["epoch"], r["elow"])
+        ep = e["epochs"]
+        if any(ep):
+            for who, w, rd in (("client", ep[0], ep[3]), ("server", ep[2], ep[1])):
+                if w > rd:
+                    return "update-committed-before-peer-processed", (
+                        "event %d (t=%d ms, %s): %s writes under epoch %d while %s has only authorised receive epoch %d: "
+                        "its KeyUpdate was acknowledged (and UpdateKeys may return nil) although the peer has not "
+                        "processed it" % (k, e["t_ms"], ev, who, w, other[who], rd))
+        if ev == "w" and e["after"] >= 0:
+            owed.append((e["id"], other[e["side"]], e["after"], e["side"]))
+        if ev == "read":
+            p, a = e["id"], e["side"]
+            reads[a][p] += 1
+            if p not in written[other[a]]:
+                return "modified", "event %d: %s read payload %d, which its peer never wrote" % (k, a, p)
+            if reads[a][p] > 1:
+                return "delivered-twice", "event %d: %s read payload %d twice" % (k, a, p)
+            owed = [o for o in owed if not (o[0] == p and o[1] == a)]
+        if ev == "t" and owed:
+            p, a, cid, wside = owed[0]
+            return "write-after-update-not-readable", (
+                "event %d: UpdateKeys call %d of %s returned nil, payload %d written right after reached %s and was "
+                "not delivered to the application" % (k, cid, wside, p, a))
+    if c["pending_calls"]:
+        return "update-stranded", "%d UpdateKeys calls never returned although the network delivers everything " \
+                                  "after the %d losses" % (c["pending_calls"], c["dropped"])
+    for wside in ("client", "server"):
+        miss = sorted(written[wside] - set(reads[other[wside]]))
+        if miss:
+            return "lost", "payloads %s written by %s were handed to %s's socket but never delivered" % (
+                miss, wside, other[wside])
+    return None
+
+
+def pend_nontrivial(c):
+    """the KeyUpdate was really requested while the other flight was outstanding"""
+    uk = [k for k, e in enumerate(c["evs"]) if e["ev"] == "uk"]
+    drops = [k for k, e in enumerate(c["evs"]) if e["ev"] == "drop"]
+    return bool(uk and drops and drops[-1] < uk[0] and any(e["ev"] == "ukdone" for e in c["evs"]))
+
+
 def explain_mismatch(tr):
     """ask Coq for the first differing step and the model's prediction there"""
     txt = "From Coq Require Import List NArith ZArith String.\nImport ListNotations.\n" + IMPORTS + "\nOpen Scope N_scope.\n"
@@ -353,6 +430,10 @@ def run(chk):
     rc2, o2 = vlib.go_test(".", "^TestVerifC20Conc$", dict(env, VERIF_OUT=out_c), timeout=2400, tags=["c20"])
     out_f = vlib.out_path("c20f")
     rc3, o3 = vlib.go_test(".", "^TestVerifC20FinalAck$", dict(env, VERIF_OUT=out_f), timeout=600, tags=["c20"])
+    out_p = vlib.out_path("c20p")
+    rc4, o4 = vlib.go_test(".", "^TestVerifC20Pend$", dict(env, VERIF_OUT=out_p), timeout=1200, tags=["c20"])
+    pends = vlib.read_jsonl(out_p)
+    vlib.cleanup(out_p)
     traces = vlib.read_jsonl(out_t)
     concs = vlib.read_jsonl(out_c)
     finalack = vlib.read_jsonl(out_f)
@@ -361,7 +442,8 @@ def run(chk):
     vlib.cleanup(out_f)
     found_input = False
     site = SITE
-    for rc, o, nm in ((rc1, o1, "TestVerifC20Trace"), (rc2, o2, "TestVerifC20Conc"), (rc3, o3, "TestVerifC20FinalAck")):
+    for rc, o, nm in ((rc1, o1, "TestVerifC20Trace"), (rc2, o2, "TestVerifC20Conc"), (rc3, o3, "TestVerifC20FinalAck"),
+                      (rc4, o4, "TestVerifC20Pend")):
         if rc != 0:
             kind = vlib.classify_go_failure(o)
             if kind == "panic":
@@ -391,6 +473,31 @@ def run(chk):
                                    "cfg.plant (if any) = the unprotected fragment an off-path sender injected "
                                    "during the handshake",
                             "case": {k: tr[k] for k in ("variant", "case", "cfg", "steps", "recs")}, "rerun": rerun}):
+                found_input = True
+    pend_hits = collections.Counter()
+    for c in pends:
+        m = monitor_pend(c)
+        if m:
+            pend_hits[m[0]] += 1
+            fsig = {"monitor": m[0], "variant": "pend"}
+            key = repr((SITE_PEND, sorted(fsig.items())))
+            if key in reported:
+                continue
+            reported.add(key)
+            if chk.finding(SITE_PEND, fsig, m[1],
+                           {"how": "DTLS 1.3 client/server in a synctest bubble; the %s is lost %d times (events "
+                                   "`drop`), right after the last loss - before the ticket's next retransmission timer - "
+                                   "trigger `%s` (server = server.UpdateKeys(RequestPeerUpdate=req), client-req = "
+                                   "client.UpdateKeys(RequestPeerUpdate=true), double = two server.UpdateKeys back to "
+                                   "back); every other datagram is delivered at once, virtual time advances only when "
+                                   "nothing is in flight (events `t`); `recs` = every emitted record opened with the "
+                                   "sender's keys; `evs` = ordered log with the four epochs (client write, client read, "
+                                   "server write, server read) after each event"
+                                   % ("server's NewSessionTicket" if c["lose"] == "nst" else
+                                      "client's ACK of the server's NewSessionTicket", c["dropped"], c["trigger"]),
+                            "case": {k: c[k] for k in ("case", "lose", "k", "trigger", "req", "early_write", "suite",
+                                                       "written", "evs", "recs")},
+                            "rerun": rerun}):
                 found_input = True
     for c in concs:
         m = monitor_conc(c)
@@ -481,6 +588,16 @@ def run(chk):
     chk.leg_info("conc", runs=len(concs), monitor_only=True,
                  long_first_epoch_preset=sum(1 for c in concs if any(c.get("preset") or [])),
                  long_first_epoch_really_written=[c["bulk"] for c in concs if c.get("bulk")])
+    pn = [c for c in pends if pend_nontrivial(c)]
+    chk.count("pend", sum(len(c["evs"]) for c in pends),
+              [(c["lose"], c["k"], c["trigger"], c["req"], c["early_write"], c["suite"]) for c in pn],
+              samples=[{"case": c["case"], "lose": c["lose"], "k": c["k"], "trigger": c["trigger"], "req": c["req"],
+                        "events": len(c["evs"]), "final_epochs": c["evs"][-1]["epochs"] if c["evs"] else None}
+                       for c in pn[-2:]])
+    chk.leg_info("pend", runs=len(pends), monitor_only=True, monitor_hits=dict(pend_hits),
+                 by_trigger=dict(collections.Counter("%s/%s" % (c["lose"], c["trigger"]) for c in pends)),
+                 losses=dict(collections.Counter(c["dropped"] for c in pends)),
+                 notes=sorted({c["note"] for c in pends if c["note"]})[:5])
     # establishment precondition (informational: no clause of C20 is about establishment)
     for fa in finalack:
         ok_est = fa["client_handshake"] == "ok" and fa["server_handshake"] == "ok"
@@ -513,7 +630,13 @@ def run(chk):
              "with the model evaluated in Coq; evaluations = compared steps. Non-trivial trace = at least one "
              "UpdateKeys returned and the network reordered, duplicated, lost or forged-ahead something; distinct by "
              "digest of the step sequence. conc leg: 1-3 writer goroutines per side racing UpdateKeys loops under "
-             "loss/duplication/holding, then a healed network - monitors only; evaluations = deliveries.",
+             "loss/duplication/holding, then a healed network - monitors only; evaluations = deliveries. pend leg: "
+             "the server's NewSessionTicket (or the client's ACK of it) is lost 1..4 times and, before the ticket's "
+             "next retransmission timer, the server calls UpdateKeys (+/- RequestPeerUpdate), the client requests the "
+             "server's update, or the server calls UpdateKeys twice back to back; every emitted record is opened with "
+             "the sender's keys; monitors: emission epoch per endpoint never decreases, no side writes under an epoch "
+             "its peer has not processed, data written right after UpdateKeys returned is read by the peer, "
+             "exactly-once; evaluations = events (model: Ku/C20Pending.v, one active reliable flight).",
         assumptions=["AEAD authenticity (C05): only records the peer emitted are opened - premise [authentic] of the theorems",
                      "premise [no_shadow] of the theorems about runs (part of GInv): no unauthenticated fragment "
                      "numbered like a future post-handshake message was left in a reassembly buffer during the "
